@@ -103,6 +103,9 @@ def sig_for(case, why):
 def validate(trace, verdict, tag):
     res = vlib.tlc_trace(FAMILY, "PipelineTrace.tla", "PipelineTrace.cfg", trace, tag=f"c10-{tag}", heap="6g", timeout=3000)
     runs = vlib.split_runs(vlib.read_ndjson(trace))
+    stuck = [rid for rid, ev in runs.items() if any(e["ev"] == "timeout" for e in ev)]
+    if stuck:
+        raise vlib.ToolError(f"{len(stuck)} engine run(s) did not reach quiescence within 60 s (worker / coordinator threads still alive): not a verdict")
     failed = {}
     for f in res["fail"]:
         failed.setdefault(f[0], f[1])
